@@ -262,9 +262,55 @@ func safeRun[C any](run func(C) *Verdict, cs C) (v *Verdict) {
 	return run(cs)
 }
 
+// Observer hooks let an engine (chainsim in replica mode) turn engine-level failures into violations of the
+// property named by VERIF_AS, independent of which property's generator produced the history.
+var (
+	preRun  func()
+	postRun func() (sig, msg string, nontrivial bool, classes []string, counters map[string]int64)
+)
+
+// RegisterObserver installs per-case hooks (called before and after every run of a case).
+func RegisterObserver(pre func(), post func() (string, string, bool, []string, map[string]int64)) {
+	preRun, postRun = pre, post
+}
+
+// As returns the property id this run is recorded under (VERIF_AS overrides the test's own id).
+func As(id string) string {
+	if a := os.Getenv("VERIF_AS"); a != "" {
+		return a
+	}
+	return id
+}
+
+func observed[C any](run func(C) *Verdict, cs C) *Verdict {
+	if os.Getenv("VERIF_AS") == "" || postRun == nil {
+		return safeRun(run, cs)
+	}
+	if preRun != nil {
+		preRun()
+	}
+	v := safeRun(run, cs)
+	sig, msg, nt, classes, counters := postRun()
+	out := &Verdict{NonTrivial: nt, Classes: classes, Counters: counters}
+	if out.Counters == nil {
+		out.Counters = map[string]int64{}
+	}
+	if sig != "" {
+		out.Signature, out.Violation = sig, msg
+	} else if v.Violation != "" {
+		if v.Signature == "harness" {
+			out.Signature, out.Violation = "harness", v.Violation
+		} else {
+			out.Counters["other_property_failures_ignored"]++
+		}
+	}
+	return out
+}
+
 // Check runs a property. With VERIF_REPLAY=<file.json> it bypasses rapid and re-runs the stored case.
 func Check[C any](t *testing.T, id string, gen func(*rapid.T) C, run func(C) *Verdict) {
 	defer Flush()
+	id = As(id)
 	c := coll(id)
 	if rp := os.Getenv("VERIF_REPLAY"); rp != "" && strings.HasSuffix(rp, ".json") {
 		b, err := os.ReadFile(rp)
@@ -281,7 +327,7 @@ func Check[C any](t *testing.T, id string, gen func(*rapid.T) C, run func(C) *Ve
 		if err := json.Unmarshal(wrap.Case, &cs); err != nil {
 			t.Fatalf("replay: bad case: %v", err)
 		}
-		v := safeRun(run, cs)
+		v := observed(run, cs)
 		cj, _ := json.Marshal(cs)
 		c.record(cj, v)
 		if v.Violation != "" {
@@ -298,7 +344,7 @@ func Check[C any](t *testing.T, id string, gen func(*rapid.T) C, run func(C) *Ve
 	}
 	rapid.Check(t, func(rt *rapid.T) {
 		cs := gen(rt)
-		v := safeRun(run, cs)
+		v := observed(run, cs)
 		cj, _ := json.Marshal(cs)
 		c.record(cj, v)
 		if v.Violation != "" && v.Signature == "harness" {
